@@ -53,6 +53,7 @@ type H struct {
 	mirStale      bool
 	readers       *readerSet
 	idx           int
+	realClock     bool
 }
 
 func vp(p params.VerifyTxn) ledger.VerifyParams {
@@ -257,6 +258,7 @@ func setFloors(r *vf.Run, prop string) {
 		r.Floor("probe.families", 4)
 		r.Floor("probe.rejected", 100)
 		r.Floor("probe.control.accepted", 4)
+		r.Floor("publish.wrong-key.refused", 2)
 	case "C05":
 		r.Floor("publish.blocks", 20)
 		r.Floor("publish.conflict_dropped", 3)
@@ -292,6 +294,7 @@ func (h *H) Run(nSteps int) {
 			return
 		}
 	}
+	h.finalRealPublish()
 	// end of history: the node's own verification must pass on the follower's file
 	h.checkDatabase(h.Fol)
 	h.checkDatabase(h.Pub)
@@ -333,7 +336,9 @@ func (h *H) step() {
 	case x < 97:
 		h.stepReopen(h.pick())
 	default:
-		if h.Prop == "C04" || h.Rng.Intn(4) == 0 {
+		if h.Rng.Intn(5) == 0 {
+			h.stepWrongKeyPublish()
+		} else if h.Prop == "C04" || h.Rng.Intn(4) == 0 {
 			h.stepProbe()
 		} else {
 			h.stepPublish()
